@@ -703,8 +703,11 @@ impl<'tcx> Cx<'tcx> {
                     o.push(("e", xj));
                 }
             }
-            hir::ExprKind::Continue(_) => {
+            hir::ExprKind::Continue(dest) => {
                 o.push(("k", s("continue")));
+                if let Some(l) = dest.label {
+                    o.push(("label", s(l.ident.name.to_string())));
+                }
             }
             hir::ExprKind::Ret(x) => {
                 o.push(("k", s("ret")));
